@@ -195,12 +195,14 @@ def trace_update(repo, sc) -> Trace:
         env["applied_vector_potential"] = Opaque("A_prev") if sc["dynamic_A"] != "off" else None
     if "epsilon" in params:
         env["epsilon"] = Opaque("eps_prev") if sc["dynamic_epsilon"] else None
-    mach = _UpdateMachine(env, attrs, call, fuel=32, undecided=None)
+    from .smallstep import follow_private_methods
+    mach = _UpdateMachine(env, attrs, follow_private_methods(repo.cls(SOLVER, "TDGLSolver"), call), fuel=32, undecided=None)
     mach.self_state = {}
     mach.trace = tr
     mach.scenario = sc
     tr.outcome = mach.run_function(f.node)
     tr.counter = counter
+    tr.env = mach.env                   # the locals of update() when it returned
     return tr
 
 
